@@ -32,7 +32,7 @@ class Tr:
 
     def __init__(self, kinds, consts):
         self.kinds = dict(kinds)       # mutable local -> kind: int | vec | status
-        self.order = list(kinds)
+        self.order = [k for k, _ in kinds]
         self.consts = dict(consts)     # immutable names -> (term, kind)
         self.n = 0
 
